@@ -8,6 +8,7 @@ import (
 	"github.com/sarchlab/mgpusim/v4/amd/insts"
 	"github.com/sarchlab/mgpusim/v4/amd/kernels"
 	"github.com/sarchlab/mgpusim/v4/amd/protocol"
+	"github.com/sarchlab/mgpusim/v4/amd/sampling"
 	"github.com/sarchlab/mgpusim/v4/amd/timing/cu"
 	"github.com/sarchlab/mgpusim/v4/amd/timing/wavefront"
 
@@ -122,7 +123,8 @@ func (o *obs) EndTask(task tracing.Task) {
 				return
 			}
 		}
-		panic("harness: a wavefront task ended for a wavefront that never issued an instruction")
+		// a sampled wavefront never issues an instruction: its end is the WfCompletionEvent (SampledEnd)
+		return
 	}
 }
 
@@ -140,7 +142,13 @@ func (o *obs) dispatchHook(isEmu bool) sim.Hook {
 				}
 				r.st.WGs++
 				o.onMap(g)
-				r.emit("MapWG", ab.Rec{"g": g, "wfs": wfs})
+				rec := ab.Rec{"g": g, "wfs": wfs}
+				if !isEmu && *sampling.SampledRunnerFlag && sampling.SampledEngineInstance != nil {
+					if _, on := sampling.SampledEngineInstance.Predict(); on {
+						rec["sampled"] = 1
+					}
+				}
+				r.emit("MapWG", rec)
 			}
 		case *protocol.WGCompletionMsg:
 			switch ctx.Pos {
@@ -210,6 +218,11 @@ func (o *obs) attachTiming(u *cu.ComputeUnit) {
 	u.ToVectorMem.AcceptHook(o.memHook("v", lookupV))
 	u.ToScalarMem.AcceptHook(o.memHook("s", lookupS))
 	u.ToACE.AcceptHook(o.dispatchHook(false))
+	u.AcceptHook(ab.HookFn(func(ctx sim.HookCtx) {
+		if evt, ok := ctx.Item.(*wavefront.WfCompletionEvent); ok && ctx.Pos == sim.HookPosBeforeEvent {
+			o.r.emit("SampledEnd", ab.Rec{"w": o.wfIDOf(evt.Wf.Wavefront)})
+		}
+	}))
 }
 
 // attachEmu observes an emulation compute unit: one hook call per executed instruction.
